@@ -123,6 +123,19 @@ pub fn judge(mt: &str, m: &Mutant, order: u64, a: &mut Collector, base_text: &st
             (Some(_), None) => ("accepted-preserved", false),
         };
     }
+    if m.kind == MutKind::TextAfterDash {
+        // whatever the library makes of the hyphen line, the text after it must not vanish from an accepted message
+        return match observe(mt, &m.toks) {
+            Obs::Accepted { out, .. } => {
+                if out.iter().any(|t| t.content.contains("TRAILING TEXT 4711")) { ("accepted-preserved", false) } else {
+                    a.add(format!("C01/MT{mt}/dropped-text-after-dash-line/{}", m.tag), order, || format!("accepted, but output is {:?}", tok::render_lf(&out)), || json!({"mt": mt, "mutation": m.desc, "block4": tok::render_lf(&m.toks)}));
+                    ("accepted-lossy", false)
+                }
+            }
+            Obs::Rejected(_) => ("rejected", false),
+            Obs::Panic(_) => ("panic", false),
+        };
+    }
     let inl = in_language(mt, &m.toks);
     match observe(mt, &m.toks) {
         // panics belong to C07 (totality); a rejected in-language mutant belongs to C03 (acceptance)
